@@ -4,7 +4,7 @@ import ExprModel.Proofs.BcBoundary
 C05, part 3: the constant pool only grows (`mkConst_preserves`), the index it returns is in range
 (`mkConst_index_lt`) and names a constant of the class of the value asked for.
 -/
-namespace ExprModel
+namespace ExprModel.Bc
 
 /-- `c'` extends `c`: every existing entry is unchanged -/
 def PoolExt (c c' : Array Val) : Prop := ∀ (k : Nat) (v : Val), c[k]? = some v → c'[k]? = some v
@@ -142,4 +142,4 @@ theorem mkRegexConst_spec {owner : Loc} {pat : String} {p p' : Pool} {k : Nat} (
       · exact hk
       · exact hp1.re o ho
 
-end ExprModel
+end ExprModel.Bc
